@@ -1569,7 +1569,7 @@ Q(name="e2_endpoint_first_initial", props=["C07", "C14", "C09"], func=r"endpoint
   allowed_panics=r"unwrap_failed|abort|handle_error|non-initial|attempt to", ignore_untranslatable=r"^cast kind Transmute",
   functions=["Endpoint::handle_first_packet"], pre=lambda c: ule(c.inp("*_1.%d#discr" % c.field("endpoint.rs", "Endpoint", "server_config"), I64), bv(1)), post=hfp2_post,
   bounds="every datagram length, configuration and verdict of key derivation / header decoding / token validation (all opaque): without a server configuration the only reaction is a stateless reset sized by this datagram; an Initial in a datagram shorter than 1200 bytes causes no response and no state; the token is checked against this datagram's source address; NewConnection is returned iff a route for the Initial's DCID was installed for a fresh buffer slot; one error-string construction path (a pointer transmute inside the panic message) is outside",
-  replay=("endpoint_first_initial_native", lambda m: [dict(len_=l) for l in (1199, 1200, 300)]))
+  replay=("endpoint_first_initial_native", lambda m: [dict(len_=l, dcid_len=d) for d in (8, 4, 0) for l in (1199, 1200, 300, 64)]))
 
 
 # ------------------------------------------------------------------ C08: the tail of Connection::handle_packet (slice): a connection that becomes drained stops its close timer
